@@ -166,7 +166,7 @@ def xmlsecVerify (doc : XNode) (nodeName id : String) (key : Nat) : Bool :=
                 let uri := (ref.attr "URI").getD ""
                 let target : Option Path :=
                   if uri == "" then some []
-                  else if uri.startsWith "#" then ids.lookup (uri.drop 1).toString else none
+                  else (ids.find? (fun e => uri == "#" ++ e.1)).map (·.2)   -- same-document reference to a registered ID
                 match target with
                 | none => false
                 | some tp =>
@@ -200,7 +200,7 @@ def validatorsOk (item : XNode) : Bool :=
       | [ref] =>
         let uri := ref.attr "URI"
         let idOk := match uri, item.attr "ID" with
-          | some u, some i => u.startsWith "#" && u.length > 1 && u == "#" ++ i
+          | some u, some i => u == "#" ++ i && i != ""   -- startswith("#"), len > 1, == "#" + item.id
           | _, _ => false
         let c14nOk := match lastChild si dsC14nMethod with
           | some (_, c) => allowedC14n.contains ((c.attr "Algorithm").getD "")
